@@ -7,7 +7,7 @@ UNIVERSE = ("any append bool byte cap clear close comparable complex complex128 
             "float64 imag int int16 int32 int64 int8 iota len make max min new nil panic print println real recover rune "
             "string true uint uint16 uint32 uint64 uint8 uintptr").split()
 
-PKG_POOL = ["err", "cleanup", "cleanup2", "arg", "v", "util", "server", "err2", "context", "str", "errs", "x1", "foo"]
+PKG_POOL = ["err", "cleanup", "cleanup2", "arg", "v", "util", "server", "err2", "context", "str", "errs", "x1", "foo", "init"]
 TYPE_POOL = ["Err", "Err2", "Cleanup", "Cleanup2", "Arg", "V", "Select", "Func", "Type", "Var", "Range", "Go", "Map", "Chan",
              "Default", "Error", "String", "Int", "Bool", "Nil", "True", "Len", "New", "Make", "Util", "Server", "Context",
              "Wire", "Fmt", "Wtrace", "HTTPServer", "URL", "ID", "X1", "Z9", "Foo", "Foo2", "Foo_2", "Bar", "Append", "Any",
